@@ -92,10 +92,10 @@ def replay(ctx, path):
         for e in d["execution"]:
             if e["e"] == "Reset": lines.append("R " + e["impl"])
             elif e["e"] == "A": lines.append("%s %d %d" % (e["op"], e["k"], e["v"]))
-        t = ctx.drive(drv, lines, "replay")
+        t = ctx.drive(drv, lines + core.fault_line(d), "replay")
         ctx.report(ctx.judge("AssocTrace", [t]))
     else:
         drv = build_sp(ctx) if d.get("driver") == "drv_vector_sp" else build(ctx)
-        t = ctx.drive(drv, d.get("script") or vec_script(d["execution"]), "replay")
+        t = ctx.drive(drv, (d.get("script") or vec_script(d["execution"])) + core.fault_line(d), "replay")
         ctx.report(ctx.judge("VecLifeTrace", [t]))
     return ctx.finish(rule="replay of " + path)
